@@ -121,6 +121,11 @@ class Scheduler:
 
     def point(self, op):
         tid = threading.current_thread().name
+        if tid not in self.state or self.state.get(tid) == "done":
+            # not one of the scheduled readers (e.g. a finalizer running in the driver thread, or a late call after the
+            # reader's body returned): the operation happens right here, it is not a scheduling point
+            self.trace.append((f"<{tid}>", op))
+            return
         with self.cv:
             self.state[tid] = "waiting"
             self.pending_op[tid] = op
